@@ -52,12 +52,16 @@ func (r *Runner) statFor(h *ssa.Function) *HarnessStats {
 func (r *Runner) worker(id int, e *Exec) {
 	for {
 		r.mu.Lock()
-		for len(r.queue) == 0 && r.busy > 0 && !r.stop {
-			r.cond.Wait()
-		}
-		if !r.deadline.IsZero() && time.Now().After(r.deadline) && len(r.queue) > 0 {
-			r.timedOut = true
-			r.queue = nil
+		for {
+			if !r.deadline.IsZero() && time.Now().After(r.deadline) && len(r.queue) > 0 {
+				r.timedOut = true
+				r.queue = nil
+			}
+			if len(r.queue) == 0 && r.busy > 0 && !r.stop {
+				r.cond.Wait()
+				continue
+			}
+			break
 		}
 		if r.stop || (len(r.queue) == 0 && r.busy == 0) {
 			r.cond.Broadcast()
